@@ -37,9 +37,13 @@ type sit struct {
 	cur    int
 	merges map[string][][]byte // key -> oldvals passed to Merge, in order
 	cleans [][]byte
+	during func() // if set: runs at every Next (what another syncer of the same process may do in between)
 }
 
 func (s *sit) Next() ([]byte, error) {
+	if s.during != nil {
+		s.during()
+	}
 	if s.cur >= len(s.keys) {
 		return nil, io.EOF
 	}
@@ -350,12 +354,24 @@ func main() {
 		// (2) exhaustive per-key decisions on the first `small` keys
 		sn := small[u.name]
 		ssubs := subsets(sn)
-		pow3 := func(k int) int { p := 1; for i := 0; i < k; i++ { p *= 3 }; return p }
+		pow3 := func(k int) int {
+			p := 1
+			for i := 0; i < k; i++ {
+				p *= 3
+			}
+			return p
+		}
 		for _, strat := range []string{"Update", "IterUpdate"} {
 			for _, st := range ssubs {
 				for _, in := range ssubs {
 					for code := 0; code < pow3(sn); code++ { // decision per key index (merge if in input, clean if stored-only)
-						decOf := func(i int) dec { c := code; for j := 0; j < i; j++ { c /= 3 }; return dec(c % 3) }
+						decOf := func(i int) dec {
+							c := code
+							for j := 0; j < i; j++ {
+								c /= 3
+							}
+							return dec(c % 3)
+						}
 						checkCase(u, strat, st, in, func(k []byte) dec { return decOf(keyIdx(k)) }, func(o []byte) dec { return decOf(keyIdx(o)) }, fmt.Sprintf("code%d", code))
 					}
 				}
@@ -398,6 +414,100 @@ func main() {
 				}
 			}
 		}
+	}
+
+	// (5) a strategy call on another LMDB environment of the same process (one Syncer per database) between any two
+	// steps of this one: same result as undisturbed, and the other call gets its own right result every time
+	{
+		env2 := world.NewEnv(16 << 20)
+		otherKeys := [][]byte{[]byte("o1"), []byte("o2"), []byte("o3")}
+		otherRuns, otherBad := 0, 0
+		other := func() {
+			otherRuns++
+			var content []string
+			var oerr error
+			_ = env2.Update(func(txn *lmdb.Txn) error {
+				dbi, err := txn.OpenDBI("other", lmdb.Create)
+				if err != nil {
+					return err
+				}
+				must(txn.Put(dbi, []byte("o0"), []byte("So0"), 0))
+				must(txn.Put(dbi, []byte("o2"), []byte("So2"), 0))
+				it := &sit{keys: otherKeys, mdec: func([]byte) dec { return replace }, cdec: func([]byte) dec { return del }, merges: map[string][][]byte{}}
+				oerr = strategy.IterUpdate(txn, dbi, it)
+				c, _ := txn.OpenCursor(dbi)
+				defer c.Close()
+				for f := uint(lmdb.First); ; f = lmdb.Next {
+					k, v, err := c.Get(nil, nil, f)
+					if err != nil {
+						break
+					}
+					content = append(content, string(k)+"="+string(v))
+				}
+				return errRollback
+			})
+			if oerr != nil || strings.Join(content, ",") != "o1=No1,o2=No2,o3=No3" {
+				otherBad++
+				r.Violate(part.Name, "interleaved-strategy-calls-disturb-each-other", fmt.Sprintf("IterUpdate on a second environment, run between two steps of another strategy call: err=%v content=%v", oerr, content), nil)
+			}
+		}
+		for _, u := range unis {
+			u.keys = u.keys[:4]
+			subs := subsets(4)
+			for _, strat := range []string{"Update", "IterUpdate"} {
+				for _, st := range subs {
+					for _, in := range subs {
+						input := make([][]byte, len(in))
+						for i, x := range in {
+							input[i] = u.keys[x]
+						}
+						md := func(k []byte) dec { return dec(pos(u, k) % 3) }
+						cd := func(o []byte) dec { return dec((pos(u, o[1:]) + 1) % 3) }
+						plain := run(u, strat, st, input, md, cd)
+						var res result
+						func() {
+							// same call, with the other environment's call at every Next
+							err := env.Update(func(txn *lmdb.Txn) error {
+								dbi, err := txn.OpenDBI("u_"+u.name, lmdb.Create|u.flags)
+								if err != nil {
+									return err
+								}
+								for _, i := range st {
+									must(txn.Put(dbi, u.keys[i], storedVal(u.keys[i]), 0))
+								}
+								it := &sit{keys: input, mdec: md, cdec: cd, merges: map[string][][]byte{}, during: other}
+								if strat == "Update" {
+									res.err = strategy.Update(txn, dbi, it)
+								} else {
+									res.err = strategy.IterUpdate(txn, dbi, it)
+								}
+								res.content = map[string]string{}
+								c, _ := txn.OpenCursor(dbi)
+								defer c.Close()
+								for f := uint(lmdb.First); ; f = lmdb.Next {
+									k, v, err := c.Get(nil, nil, f)
+									if err != nil {
+										break
+									}
+									res.content[string(k)] = string(v)
+								}
+								return errRollback
+							})
+							if err != errRollback {
+								ev.Fatal("harness txn: %v", err)
+							}
+						}()
+						part.Executions++
+						part.Transitions += int64(len(in) + 1)
+						if fmt.Sprint(plain.err) != fmt.Sprint(res.err) || fmt.Sprint(plain.content) != fmt.Sprint(res.content) {
+							r.Violate(part.Name, "interleaved-strategy-calls-disturb-each-other", fmt.Sprintf("%s/%s stored=%v input=%v: undisturbed err=%v content=%v; with a call on another environment in between err=%v content=%v", u.name, strat, st, in, plain.err, plain.content, res.err, res.content), map[string]any{"universe": u.name, "strategy": strat, "stored": st, "input": in})
+						}
+					}
+				}
+			}
+		}
+		env2.Destroy()
+		outcomes[fmt.Sprintf("interleaved:%v/%d", otherRuns > 0, otherBad)] = true
 	}
 
 	// (4) EmptyPut on a dupsort DBI keeps duplicates
